@@ -127,6 +127,31 @@ def same_body_under_scopes(rng, fg, labels=("", "d", "e"), closed_body=None):
     return out
 
 
+def until_over_literals(rng, vars_):
+    """phi U psi with phi, psi small Boolean combinations of literals whose supports differ: paths that
+    must LEAVE phi through one particular variable to reach psi (and variants under EX / binders)."""
+    def lit():
+        v = P(rng.choice(vars_))
+        return v if rng.random() < 0.5 else U("not", v)
+
+    def small():
+        x = rng.random()
+        if x < 0.5:
+            return lit()
+        return B(rng.choice(["and", "or"]), lit(), lit())
+    a = small()
+    b = U("not", a) if rng.random() < 0.3 else small()
+    f = B(rng.choice(["EU", "EU", "AU", "EW", "AW"]), a, b)
+    x = rng.random()
+    if x < 0.25:
+        f = U(rng.choice(["EX", "AX", "not", "EF"]), f)
+    elif x < 0.4:
+        f = H("bind", "x", U("EX", B("EU", U("not", V("x")), V("x"))))
+    elif x < 0.5:
+        f = B(rng.choice(["and", "or"]), f, small())
+    return f
+
+
 # ----------------------------------------------------------------------------- C01
 def gen_c01(rng, probe, tier):
     thorough = tier == "thorough"
@@ -142,6 +167,8 @@ def gen_c01(rng, probe, tier):
                 f = permuted_roles(rng, gen.FormulaGen(rng, m["vars"], p_quant=0.0, quant=[], p_jump=0.2,
                                                        unary=["not", "EX", "AX", "EF", "AG"], binary=["and", "or", "EU"]),
                                    nvars=rng.choice([2, 2, 3]) if m["n"] == 2 else 2)
+            elif j % 6 == 2:
+                f = until_over_literals(rng, m["vars"])
             else:
                 f = fg.gen(rng.randint(2, 12 if m["n"] <= 3 else 8))
             k = k_for(f)
@@ -214,6 +241,29 @@ def gen_c02(rng, probe, tier):
                 calls.append(call("ext_dirty", [l], k, ids=[i + 1], ctx=ctx))
                 calls.append(call("ext_dirty", [r], k, ids=[i + 1], ctx=ctx))
             cases.append({"id": "%s-r%d" % (m["id"], j), "net": m["id"], "kinds": ["denote", "equal"], "calls": calls})
+        # one closed sub-formula under several quantifiers with DIFFERENT domains inside one formula
+        # (sibling scopes): each occurrence must see its own domain
+        closed_gen = gen.FormulaGen(rng, m["vars"], wild=["p"], p_quant=0.0, quant=[], p_jump=0.0, unary=["not", "EX", "AX", "EF", "AG"], binary=["and", "or", "EU"])
+        for j in range(per_net // 3):
+            body = closed_gen.gen(rng.randint(2, 4))
+            parts = []
+            for _ in range(rng.randint(2, 3)):
+                q = rng.choice(["exists", "forall", "bind"])
+                dom = rng.choice(["d", "e", "A", ""])
+                inner = copy.deepcopy(body)
+                x = rng.random()
+                if x < 0.5:
+                    inner = H("jump", "x", inner)
+                elif x < 0.75:
+                    inner = B(rng.choice(["and", "or"]), inner, V("x"))
+                parts.append(H(q, "x", inner, dom))
+            f = parts[0]
+            for p_ in parts[1:]:
+                f = B(rng.choice(["and", "or", "imp"]), f, p_)
+            ctx = {l: rand_ctx_spec(rng) for l in ("p", "d", "e", "A")}
+            cases.append({"id": "%s-s%d" % (m["id"], j), "net": m["id"], "kinds": ["denote"],
+                          "calls": [call(rng.choice(["ext", "ext_dirty"]), [f], k_for(f), ctx=ctx),
+                                    call("multi_ext_dirty", parts, k_for(f), ctx=ctx)]})
         # empty domains: exists false, forall true
         for j in range(3):
             body = body_gen.gen(rng.randint(1, 5), scope=["x"])
@@ -540,7 +590,15 @@ def gen_c12(rng, probe, tier):
                 inner = near_miss(rng, "z", scope)
                 f = inner
                 for v in reversed(scope):
-                    f = H(rng.choice(["bind", "exists"]), v, B(rng.choice(["and", "or"]), f, V(v)), rng.choice(["", "d"]))
+                    # the look-alike is evaluated in states OTHER than the value of the outer variable
+                    x = rng.random()
+                    if x < 0.35:
+                        f = U(rng.choice(["EF", "EX", "AX", "AG", "not"]), f)
+                    elif x < 0.5:
+                        f = H("jump", v, U(rng.choice(["EX", "EF"]), f))
+                    elif x < 0.75:
+                        f = B(rng.choice(["and", "or"]), f, V(v))
+                    f = H(rng.choice(["bind", "exists", "forall"]), v, f, rng.choice(["", "", "d"]))
             else:
                 f = fg.gen(rng.randint(3, 10))
             g = defeat_patterns(f)
@@ -647,6 +705,8 @@ def gen_c20(rng, probe, tier):
                 cases.append({"id": "%s-x%d" % (m["id"], j), "net": m["id"], "kinds": ["slice"], "calls": calls})
                 continue
             f = fg.gen(rng.randint(2, 10))
+            if j % 3 == 1:
+                f = until_over_literals(rng, m["vars"])
             k = k_for(f)
             calls = [call(rng.choice(["formula", "formula_dirty"]), [f], k)]
             for c in range(2 ** m["pbits"]):
